@@ -520,7 +520,7 @@ def analyse(task):
             m = s.model()
             model = {'given_keywords': sorted(k for k in uni if z3.is_true(m.eval(K.entries[k][0], model_completion=True))),
                      'user_value_is_None': sorted(k for k in uni if z3.is_true(m.eval(it.is_none(K.entries[k][1]), model_completion=True)))}
-        obs.append(dict(id=oid, kind=kind, label=label, props=['C19'] if task == 'separation' else ['C03'], line=fd.lineno, note=note, expect='unsat',
+        obs.append(dict(id=oid, kind=kind, label=label, props={'separation': ['C19', 'C03'], 'hierarchy': ['C03', 'C17']}.get(task, ['C03']), line=fd.lineno, note=note, expect='unsat',
                         verdict=verdict, backend='z3', time=round(time.time() - ts, 4), model=model, goal=str(goal)[:600], finding=None))
 
     for msg in impl_issues:
@@ -748,7 +748,8 @@ def replay(rec):
 def run(prop, tier, seed, known):
     results = []
     bounded = []
-    tasks = TASKS if prop == 'C03' else ['separation']
+    # C03: every task; other properties claim one task's evaluate() routing (and the keyword filter it goes through)
+    tasks = TASKS if prop == 'C03' else {'C19': ['separation'], 'C17': ['hierarchy']}.get(prop, ['separation'])
     for task in tasks:
         t0 = time.time()
         try:
